@@ -47,6 +47,8 @@ pub struct Arena {
     pub uf_names: Vec<String>,
     /// When set, `Deserialize` for `SymF` allocates a fresh variable per element.
     pub deser_fresh: bool,
+    /// Incoming integers are 31-bit Montgomery representatives (p3 MontyField31 serde format).
+    pub deser_monty31: bool,
     /// Forced decisions for `==` (by decision index); used to explore non-default paths.
     pub forced: HashMap<usize, bool>,
     pub n_decisions: usize,
@@ -67,6 +69,7 @@ impl Arena {
             var_nodes: Vec::new(),
             uf_names: Vec::new(),
             deser_fresh: false,
+            deser_monty31: false,
             forced: HashMap::new(),
             n_decisions: 0,
             assume_equal: false,
@@ -130,6 +133,9 @@ pub fn set_assume_equal(b: bool) {
 }
 pub fn set_deser_fresh(b: bool) {
     with_arena(|a| a.deser_fresh = b);
+}
+pub fn set_deser_monty31(b: bool) {
+    with_arena(|a| a.deser_monty31 = b);
 }
 
 pub fn mulmod(a: u64, b: u64, p: u64) -> u64 {
@@ -210,4 +216,85 @@ impl<'a> Evaluator<'a> {
             }
         }
     }
+}
+
+/// Number of distinct arena nodes reachable from `roots` (stops counting at `cap`).
+pub fn dag_size(roots: &[H], cap: usize) -> usize {
+    let mut seen = std::collections::HashSet::new();
+    let mut stack: Vec<u32> = roots.iter().filter_map(|h| if let H::N(i) = h { Some(*i) } else { None }).collect();
+    with_arena(|a| {
+        while let Some(i) = stack.pop() {
+            if !seen.insert(i) {
+                continue;
+            }
+            if seen.len() >= cap {
+                break;
+            }
+            let mut kid = |h: &H| {
+                if let H::N(j) = h {
+                    stack.push(*j);
+                }
+            };
+            match &a.nodes[i as usize] {
+                Node::Var(_) => {}
+                Node::Add(x, y) | Node::Sub(x, y) | Node::Mul(x, y) => {
+                    kid(x);
+                    kid(y);
+                }
+                Node::Neg(x) | Node::Inv(x) => kid(x),
+                // uninterpreted applications are opaque constants for the arithmetic core
+                Node::Uf { .. } => {}
+            }
+        }
+    });
+    seen.len()
+}
+
+/// Size of the fully expanded (tree) form of the SMT macros for `roots`, saturating at `cap`.
+/// Fraction-lifted nodes (anything above an `Inv`) count double (numerator and denominator).
+pub fn expansion_size(roots: &[H], cap: u64) -> u64 {
+    fn go(a: &Arena, i: u32, memo: &mut HashMap<u32, (u64, bool)>, cap: u64) -> (u64, bool) {
+        if let Some(&r) = memo.get(&i) {
+            return r;
+        }
+        let kid = |h: &H, memo: &mut HashMap<u32, (u64, bool)>| -> (u64, bool) {
+            match h {
+                H::C(_) => (1, false),
+                H::N(j) => go(a, *j, memo, cap),
+            }
+        };
+        let r = match &a.nodes[i as usize] {
+            Node::Var(_) => (1, false),
+            Node::Add(x, y) | Node::Sub(x, y) | Node::Mul(x, y) => {
+                let (sx, fx) = kid(x, memo);
+                let (sy, fy) = kid(y, memo);
+                let f = fx || fy;
+                let s = 1u64.saturating_add(sx).saturating_add(sy);
+                (if f { s.saturating_mul(2) } else { s }.min(cap), f)
+            }
+            Node::Neg(x) => {
+                let (sx, fx) = kid(x, memo);
+                (sx.saturating_add(1).min(cap), fx)
+            }
+            Node::Inv(x) => {
+                let (sx, _) = kid(x, memo);
+                (sx.saturating_add(1).min(cap), true)
+            }
+            // hash chains nest uninterpreted applications deeply; z3 copes with those (the
+            // blow-up this guard is for comes from arithmetic macros), so count them as leaves
+            Node::Uf { .. } => (1, false),
+        };
+        memo.insert(i, r);
+        r
+    }
+    with_arena(|a| {
+        let mut memo = HashMap::new();
+        let mut total = 0u64;
+        for h in roots {
+            if let H::N(i) = h {
+                total = total.saturating_add(go(a, *i, &mut memo, cap).0);
+            }
+        }
+        total.min(cap)
+    })
 }
